@@ -794,6 +794,10 @@ func (c *compiler) VisitCharLit(e *ast.CharLit) ast.VisitResult {
 // so we need to do some work here
 func (c *compiler) VisitStringLit(e *ast.StringLit) ast.VisitResult {
 	constStr := c.mod.NewGlobalDef("", irutil.NewCString(e.Value))
+	// the constant is only used in this module, unnamed globals of different
+	// object files would collide (__unnamed_N) if they were externally visible
+	constStr.Linkage = enum.LinkageInternal
+	constStr.Immutable = true
 	// call the ddp-runtime function to create the ddpstring
 	c.commentNode(c.cbb, e, constStr.Name())
 	dest := c.NewAlloca(c.ddpstring.typ)
